@@ -193,13 +193,35 @@ fn check_case(case: &Case, ctx: &mut Ctx) -> PResult {
     // multi-step: encode a second variable on the same instance; its binaries must be fresh with respect to
     // everything that exists now (including the binaries of the first encoding)
     {
-        let ids_now: BTreeSet<u64> = inst.decision_variables.iter().map(|v| v.id).collect();
-        let n_before = inst.decision_variables.len();
         let mut inst2 = inst.clone();
+        // what may happen between two encodings (decor bit 7): a later variable with a larger id enters at the FRONT of the
+        // list (a slack, a user's own variable), so that the list no longer ends with the largest id; or the variable that
+        // holds the largest id (the top bit of the first encoding) is fixed by a partial evaluation and carries a recorded value
+        if case.decor & 128 != 0 {
+            let top = inst2.decision_variables.iter().map(|v| v.id).max().unwrap();
+            if case.others % 2 == 0 && top < u64::MAX - 16 {
+                let mut v = v1::DecisionVariable::default();
+                v.id = top + 1; // the very next id, as the SDK itself numbers a slack or a weight parameter
+                v.kind = KIND_CONTINUOUS;
+                v.name = Some("later".into());
+                inst2.decision_variables.insert(0, v);
+                ctx.label("between-encodings=larger-id-enters-at-the-front");
+            } else {
+                for v in inst2.decision_variables.iter_mut().filter(|v| v.id == top) {
+                    v.substituted_value = Some(1.0);
+                }
+                ctx.label("between-encodings=largest-id-gets-a-recorded-value");
+            }
+        }
+        let ids_now: BTreeSet<u64> = inst2.decision_variables.iter().map(|v| v.id).collect();
         match inst2.log_encode(SECOND_ID) {
             Ok(l2) => {
                 ctx.label("second-encode");
-                let added = &inst2.decision_variables[n_before..];
+                let added: Vec<v1::DecisionVariable> = inst2.decision_variables.iter().filter(|v| !ids_now.contains(&v.id)).cloned().collect();
+                if inst2.decision_variables.len() != ids_now.len() + added.len() {
+                    return fail("C12/second-encode/new-id-not-fresh", format!("second log_encode registered a variable under an existing id (ids before {:?}, after {:?}): {}", ids_now, inst2.decision_variables.iter().map(|v| v.id).collect::<Vec<_>>(), what()));
+                }
+                let added = &added;
                 let mut fresh = BTreeSet::new();
                 for v in added {
                     if ids_now.contains(&v.id) || !fresh.insert(v.id) {
@@ -516,7 +538,7 @@ impl Property for C12 {
     }
     fn required_labels(&self) -> Vec<String> {
         let mut v: Vec<String> = CLASS_NAMES.iter().map(|c| format!("class={c}")).collect();
-        v.extend(["fractional-bound", "width>4096", "single-integer", "oracle=all-bit-patterns", "oracle=complete-sequence", "child-process", "second-encode", "target-has-recorded-value", "instance-records-parameters", "encode-substitute-encode", "upper-one-ulp-below-integer", "lower-one-ulp-above-integer", "empty-range-hugging-an-integer", "bound-is-a-point-at-infinity", "largest-id-is-a-dependent-variable"].iter().map(|s| s.to_string()));
+        v.extend(["fractional-bound", "width>4096", "single-integer", "oracle=all-bit-patterns", "oracle=complete-sequence", "child-process", "second-encode", "target-has-recorded-value", "instance-records-parameters", "encode-substitute-encode", "upper-one-ulp-below-integer", "lower-one-ulp-above-integer", "empty-range-hugging-an-integer", "bound-is-a-point-at-infinity", "largest-id-is-a-dependent-variable", "between-encodings=larger-id-enters-at-the-front", "between-encodings=largest-id-gets-a-recorded-value"].iter().map(|s| s.to_string()));
         v
     }
     fn cases(&self, tier: Tier) -> usize {
@@ -603,7 +625,7 @@ impl Property for C12 {
         if case.class != 0 || (w >= 2.0 && !((w as u64 + 1).is_power_of_two())) {
             ctx.nontrivial();
         }
-        ctx.fp_dbg(&(case.lower.to_bits(), case.upper.to_bits(), case.class, case.others % 6, case.target_pos, case.decor & 127));
+        ctx.fp_dbg(&(case.lower.to_bits(), case.upper.to_bits(), case.class, case.others % 6, case.target_pos, case.decor));
         ctx.sample_with(|| json!({"lower": format!("{}", case.lower), "upper": format!("{}", case.upper), "class": CLASS_NAMES[case.class as usize], "other_variables": case.others % 6}));
         if matches!(case.class, 5 | 6 | 7 | 8) {
             ctx.label("child-process");
